@@ -182,13 +182,10 @@ def wiring(pm, ctx):
     rets = [n for n in ast.walk(f) if isinstance(n, ast.Return)]
     ok = False
     if len(rets) == 1 and isinstance(rets[0].value, ast.Call):
-        c = rets[0].value
-        cn = call_name(c) or ""
-        if cn.endswith("argmax"):
-            inner = c.args[0] if c.args else (c.func.value if isinstance(c.func, ast.Attribute) else None)
-            ax = kwarg(c, "axis") or (c.args[1] if len(c.args) > 1 else (c.args[0] if cn != "np.argmax" and c.args else None))
-            if cn != "np.argmax":
-                inner = c.func.value
+        from ..match import arg_reduce
+        ar = arg_reduce(rets[0].value)
+        if ar and ar[0] == "argmax":
+            inner, ax = ar[1], ar[2]
             if isinstance(inner, ast.Call) and call_name(inner) == "self.predict_proba" and isinstance(ax, ast.Constant) and ax.value in (1, -1):
                 ok = True
     if ok:
@@ -218,9 +215,9 @@ def wiring(pm, ctx):
     f = u.func("DiscriminativeModel.fit")
     cfg = CFG(f)
     lab = [s for s in cfg.nodes if isinstance(s, ast.Assign) and attr_chain(s.targets[0]) == "self.labels_"]
-    ok = len(lab) == 1 and isinstance(lab[0].value, ast.Call) and isinstance(lab[0].value.func, ast.Attribute) \
-        and lab[0].value.func.attr == "argmax" and [norm_src(a) for a in lab[0].value.args] == ["1"] \
-        and any(isinstance(n, ast.Call) and call_name(n) == "self._infer" for n in ast.walk(lab[0].value))
+    from ..match import arg_reduce
+    ar = arg_reduce(lab[0].value) if len(lab) == 1 else None
+    ok = bool(ar) and ar[0] == "argmax" and isinstance(ar[2], ast.Constant) and ar[2].value in (1, -1) and isinstance(ar[1], ast.Call) and call_name(ar[1]) == "self._infer"
     loops = [s for s in cfg.nodes if isinstance(s, ast.For) and "range(self.max_iter)" in norm_src(s.iter)]
     if ok and loops and cfg.dominates(loops[0], lab[0]) and lab[0] not in _body_nodes(loops[0]):
         ctx.ok("C04-c", "DiscriminativeModel.fit: labels_ = argmax of the final forward pass, after training")
